@@ -545,8 +545,10 @@ class Engine:
                 tab=self.enums['serde_json::Value']; return Agg('serde_json::Value',fields,tab.index(last),last)
             if prev in self.enums and last in self.enums[prev]:
                 return Agg(prev,fields,self.enums[prev].index(last),last)
-        if last in self.src.structs or not fields or True:
-            return Agg(last,fields)
+        if prev is None and last not in self.src.structs:
+            owners=[en for en,vs in self.enums.items() if last in vs and '::' not in en]
+            if len(owners)==1: return Agg(owners[0],fields,self.enums[owners[0]].index(last),last)
+        return Agg(last,fields)
 
     def unop(self,op,a):
         if op=='Not':
